@@ -617,7 +617,7 @@ pub fn run(prop: &str) {
     }
     for k in ["issuances", "finished", "effective_successes", "late_or_duplicate_answers"] {
         if counters.get(k).copied().unwrap_or(0) == 0 {
-            mc::machinery(&format!("{prop} vacuous: {k} = 0"));
+            rep.vacuous(&format!("{prop} vacuous: {k} = 0"));
         }
     }
     rep.finish();
